@@ -30,8 +30,10 @@ func (p *peerStat) updateStats(amount int, duration time.Duration) {
 	p.Lock()
 	defer p.Unlock()
 	averageSpeed := float32(amount)
-	if duration != 0 {
-		averageSpeed /= float32(duration.Milliseconds())
+	// a sub-millisecond duration must not divide by zero: the score would become +Inf
+	// and, after the next decreaseScore, NaN, which breaks the ordering of the peer queue.
+	if ms := duration.Milliseconds(); ms != 0 {
+		averageSpeed /= float32(ms)
 	}
 	if p.peerScore == 0.0 {
 		p.peerScore = averageSpeed
